@@ -528,3 +528,12 @@ pub fn bytes_json(b: &[u8]) -> Value {
 pub fn bytes_from_json(v: &Value) -> Vec<u8> {
     unhex(v.get("hex").and_then(|h| h.as_str()).unwrap_or(""))
 }
+
+/// `lossy` for messages: long inputs (size-threshold layers) are shown as head … tail.
+pub fn lossy_head(b: &[u8]) -> String {
+    if b.len() <= 400 {
+        lossy(b)
+    } else {
+        format!("{}…({} bytes)…{}", lossy(&b[..150]), b.len(), lossy(&b[b.len() - 100..]))
+    }
+}
